@@ -216,16 +216,23 @@ class Case:
             nt = tn.num_tensors
             kind = r.choice(["contract", "contract", "contract_opt", "strip", "xor_all", "tags_all", "cumulative", "to_dense",
                              "norm", "linop", "linop", "trace", "partial", "inplace", "strip_tid", "equalize", "distribute",
-                             "rshift", "structured", "matmul", "overlap", "contract_get", "select_all", "overlap2", "scaled", "isel"])
+                             "rshift", "structured", "matmul", "overlap", "contract_get", "select_all", "overlap2", "scaled", "isel", "between", "contract_ind", "t_overlap"])
+            if nt == 1 and self.exp10 == 0 and not getattr(self, "updated", False) and r.random() < 0.35:
+                kind = "t_overlap"      # the Tensor-level spellings are only reachable from one-tensor networks
             outer = list(tn.outer_inds())
             # a label on three or more axes (or twice on one tensor) makes this a 'hyper' network: quimb then
             # requires the output labels to be given explicitly, so only routes that take them are asked
             hyper = any(sum(inds.count(x) for inds, _ in self.net0) >= 3 for x in self.labels) or \
                 any(len(set(inds)) != len(inds) for inds, _ in self.net0)
-            if hyper and kind not in ("contract", "contract_opt", "strip", "tags_all", "to_dense", "linop", "select_all"):
+            if hyper and kind not in ("contract", "contract_opt", "strip", "tags_all", "to_dense", "linop", "select_all",
+                                      "between", "contract_ind", "overlap2", "scaled"):
                 continue
-            if kind in ("overlap2", "scaled", "isel"):
+            if kind in ("overlap2", "scaled", "isel", "t_overlap"):
                 self.extra_routes(kind)
+                continue
+            if kind in ("between", "contract_ind"):
+                # partial contractions that work out what to keep themselves (hyper-index aware): any geometry
+                self.partial_hyper(kind)
                 continue
             if kind == "contract":
                 out = self.random_out()
@@ -407,6 +414,30 @@ class Case:
                 self.route("select(ALL,with_exponent).contract", out,
                            lambda: tn.select("ALL", with_exponent=True).contract(all, output_inds=out))
 
+    def partial_hyper(self, kind):
+        r = self.rng
+        tn = self.tn
+        if tn.num_tensors < 2:
+            return
+        if any(len(set(t.inds)) != t.ndim for t in tn.tensors):
+            return      # (a label twice on one tensor: partial contraction is not offered)
+        out = list(self.outer0)
+        if kind == "between":
+            ones = [g for g in tn.tag_map if g.startswith("T") and len(tn.tag_map[g]) == 1]
+            if len(ones) < 2:
+                return
+            g1, g2 = r.sample(sorted(ones), 2)
+            if tn.tag_map[g1] == tn.tag_map[g2]:
+                return
+            # the rest of the network decides which labels survive: the requested outputs are the outer labels
+            self.update("contract_between", lambda: tn.contract_between(g1, g2), out=out)
+        else:
+            cands = [ix for ix, tids in tn.ind_map.items() if len(tids) >= 2]
+            if not cands:
+                return
+            ix = r.choice(sorted(cands))
+            self.update("contract_ind", lambda: tn.contract_ind(ix), out=out)
+
     def extra_routes(self, kind):
         """routes judged by their own clauses: overlap with a second network, scalar multiples /
         negation / conjugation of the network, selecting one value of a label"""
@@ -434,6 +465,36 @@ class Case:
                    "other": [{"inds": list(i), "shape": [int(d) for d in a.shape], "data": snap_garray(a)} for i, a in tn_tensors(other)]}
             try:
                 v = tn.overlap(other)
+                rec["result"] = snap_garray(np.asarray(v).reshape(-1), self.tol, 10.0 ** rec["scale"])
+                rec["_mag"] = abs(complex(v)) * 10.0 ** rec["scale"]
+            except Exception as ex:  # noqa
+                rec["exc"] = type(ex).__name__; rec["excmsg"] = str(ex)[:300]
+            self.log(rec)
+        elif kind == "t_overlap":
+            # Tensor-level overlap routes: only for one-tensor networks without a stored exponent
+            if tn.num_tensors != 1 or self.exp10 != 0 or getattr(self, "updated", False) or not out:
+                return
+            (t,) = tn.tensors
+            if len(set(t.inds)) != t.ndim:
+                return
+            k = r.randint(0, len(out))
+            la, lb = out[:k], out[k:]
+            bd = r.choice([1, 2])
+            A = qtn.Tensor(self._rand([tn.ind_size(x) for x in la] + [bd], cplx).astype(self.dtype), inds=la + ["__ob"], tags="OA")
+            B = qtn.Tensor(self._rand([bd] + [tn.ind_size(x) for x in lb], cplx).astype(self.dtype), inds=["__ob"] + lb, tags="OB")
+            other = qtn.TensorNetwork([A, B])
+            how = r.choice(["t.overlap(tn)", "tn.overlap(t)", "t.overlap(t2)"])
+            rec = {"ev": "overlap2", "name": how, "out": out, "result": [], "scale": self.scale, "exc": "", "exp_other": 0,
+                   "other": [{"inds": list(i), "shape": [int(d) for d in a.shape], "data": snap_garray(a)} for i, a in tn_tensors(other)]}
+            try:
+                if how == "t.overlap(tn)":
+                    v = t.overlap(other)            # <other|t>
+                elif how == "t.overlap(t2)":
+                    t2 = (A @ B)
+                    v = t.overlap(t2)               # <t2|t>
+                else:
+                    # <t|other>: swap the roles so that the spec's <other|self> applies: conj of the result
+                    v = np.conj(other.overlap(t))
                 rec["result"] = snap_garray(np.asarray(v).reshape(-1), self.tol, 10.0 ** rec["scale"])
                 rec["_mag"] = abs(complex(v)) * 10.0 ** rec["scale"]
             except Exception as ex:  # noqa
@@ -524,11 +585,16 @@ class Case:
                "left": left, "right": right, "vec": [], "result": [], "scale": self.scale, "exc": ""}
         try:
             import quimb.tensor as qtn
+            explicit = r.random() < 0.4
+            dims_kw = {}
+            if explicit:
+                dims_kw = {"ldims": tuple(int(tn.ind_size(x)) for x in left), "rdims": tuple(int(tn.ind_size(x)) for x in right)}
+                rec["name"] += ".dims"
             if via == "class":
                 from quimb.tensor.tensor_core import TNLinearOperator
-                A = TNLinearOperator(tn, left, right)
+                A = TNLinearOperator(tn, left, right, **dims_kw)
             else:
-                A = tn.aslinearoperator(left, right)
+                A = tn.aslinearoperator(left, right, **dims_kw)
             if op == "H":
                 A = A.H
             elif op == "T":
